@@ -81,7 +81,10 @@ def main():
         tasks = [t for t in tasks if t.id in keep or any(t.id.startswith(k) for k in keep)]
     ids = [t.id for t in tasks]
     bounded = {t.id: t.cfg.get('extra', {}).get('bounded') for t in tasks if t.cfg.get('extra', {}).get('bounded')}
-    budgets = {t.id: t.cfg.get('extra', {}).get('task_timeout_s') for t in tasks if t.cfg.get('extra', {}).get('task_timeout_s')}
+    # every task has a wall-clock budget (a change can send the path exploration of a loop into a search that never ends): a task
+    # that exceeds it is stopped and reported as undecided, its obligations go to the bounded native stand-in
+    default_budget = int(os.environ.get('PYVC_TASK_BUDGET_S', '0')) or (1500 if tier == 'quick' else 4 * 3600)
+    budgets = {t.id: (t.cfg.get('extra', {}).get('task_timeout_s') or default_budget) for t in tasks}
     results = run_tasks(f'props.{prop}', ids, tier, seed, jobs=a.jobs or None, budgets=budgets)
     by, stats, errors = R.aggregate(results)
 
